@@ -549,6 +549,23 @@ class ExcFlow:
             if v is None:
                 return False, 'dict keys are not constants'
             keys.add(v)
+        # the subscript sits under `if <key> in <table>` (or `elif`): membership has just been tested
+        cur, child = mod.parents.get(sub), sub
+        while cur is not None and cur is not fn:
+            if isinstance(cur, ast.If) and any(child is st for st in cur.body):
+                for t in ([cur.test] + (cur.test.values if isinstance(cur.test, ast.BoolOp) and isinstance(cur.test.op, ast.And) else [])):
+                    if isinstance(t, ast.Compare) and len(t.ops) == 1 and isinstance(t.ops[0], ast.In) \
+                            and unparse(t.left) == unparse(sub.slice) and unparse(t.comparators[0]) == unparse(sub.value) \
+                            and isinstance(sub.slice, ast.Name) and not any(
+                                isinstance(x, ast.Name) and x.id == sub.slice.id and isinstance(x.ctx, ast.Store)
+                                for st in cur.body for x in ast.walk(st)):
+                        return True, f'guarded by `{unparse(t)}`'
+            if isinstance(cur, (ast.IfExp,)) and child is cur.body:
+                t = cur.test
+                if isinstance(t, ast.Compare) and len(t.ops) == 1 and isinstance(t.ops[0], ast.In) \
+                        and unparse(t.left) == unparse(sub.slice) and unparse(t.comparators[0]) == unparse(sub.value):
+                    return True, f'guarded by `{unparse(t)}`'
+            child, cur = cur, mod.parents.get(cur)
         e = sub.slice
         lowered = False
         seen = 0
